@@ -95,74 +95,139 @@ Theorem C20_hopfield_step : forall r W, shape (2 * r + 1) W ->
     snd (step x s t) = hop_update W s (sched x) /\ (sched x < 2 * r + 1)%nat /\ Inv (fst (step x s t)).
 Proof. exact hopfield_step. Qed.
 
+(* TOTALITY of such an evolution, with the schedule by name: for every T >= 1 it returns; its rows are the
+   trajectory of the Hopfield updates of exactly the scheduled cells cs (sched_cells = the cell `sched x` of each
+   successive engine state), and no call of _rule raises.  No symmetry, no bipolarity. *)
+Theorem C20_evolve_total_abstract : forall r W, shape (2 * r + 1) W ->
+  forall (X : Type) (step : X -> list Z -> nat -> X * list Z) (Inv : X -> Prop) (sched : X -> nat),
+  (forall x s t, Inv x -> length s = (2 * r + 1)%nat ->
+     (sched x < 2 * r + 1)%nat /\ Inv (fst (step x s t)) /\
+     snd (step x s t) = upd_list s (sched x) (snd (hopfield_rule1 W r tt (ring_nbhd s (sched x) r) (sched x) t))) ->
+  forall T x0 s, (1 <= T)%nat -> Inv x0 -> length s = (2 * r + 1)%nat ->
+    let cs := sched_cells X step sched (T - 1) x0 s 1 in
+    let rows := trajectory W s cs in
+    (exists x, evolve_fixed [] step x0 [s] T = Ok (x, rows)) /\
+    length cs = (T - 1)%nat /\ Forall (fun c => (c < 2 * r + 1)%nat) cs /\ length rows = T /\
+    Forall (fun row => length row = (2 * r + 1)%nat) rows /\
+    forall i, (i < T - 1)%nat ->
+      hopfield_rule W r (ring_nbhd (nth i rows []) (nth i cs 0%nat) r) (nth i cs 0%nat)
+      = Ok (nth (nth i cs 0%nat) (nth (S i) rows []) 0).
+Proof. exact evolve_total. Qed.
+
 Theorem C20_evolve_energy_abstract : forall r W, shape (2 * r + 1) W ->
   forall (X : Type) (step : X -> list Z -> nat -> X * list Z) (Inv : X -> Prop) (sched : X -> nat),
   (forall x s t, Inv x -> length s = (2 * r + 1)%nat ->
      (sched x < 2 * r + 1)%nat /\ Inv (fst (step x s t)) /\
      snd (step x s t) = upd_list s (sched x) (snd (hopfield_rule1 W r tt (ring_nbhd s (sched x) r) (sched x) t))) ->
-  forall T x0 s x rows, wsym (2 * r + 1) W -> wdiag (2 * r + 1) W ->
+  forall T x0 s, (1 <= T)%nat -> wsym (2 * r + 1) W -> wdiag (2 * r + 1) W ->
     Inv x0 -> length s = (2 * r + 1)%nat -> bipolar s ->
-    evolve_fixed [] step x0 [s] T = Ok (x, rows) ->
-    length rows = T /\
+    let cs := sched_cells X step sched (T - 1) x0 s 1 in
+    let rows := trajectory W s cs in
+    (exists x, evolve_fixed [] step x0 [s] T = Ok (x, rows)) /\
+    length rows = T /\ Forall (fun c => (c < 2 * r + 1)%nat) cs /\
     nonincreasing (map (energy2 W) rows) /\
-    Forall (fun row => length row = (2 * r + 1)%nat /\ bipolar row) rows /\
-    exists cs, Forall (fun c => (c < 2 * r + 1)%nat) cs /\ rows = trajectory W s cs.
+    Forall (fun row => length row = (2 * r + 1)%nat /\ bipolar row) rows.
 Proof. exact evolve_energy. Qed.
 
-(* the same for the direct schedule model "cell order[(t-1) mod len order] is updated" *)
-Theorem C20_direct_model_energy : forall r W order T s k rows, let N := (2 * r + 1)%nat in
-  shape N W -> wsym N W -> wdiag N W ->
+(* the same for the direct schedule model: step t (1-based) updates cell order[(t-1) mod len order] *)
+Theorem C20_direct_model_energy : forall r W order T s, let N := (2 * r + 1)%nat in
+  (1 <= T)%nat -> shape N W -> wsym N W -> wdiag N W ->
   order <> [] -> Forall (fun c => (c < N)%nat) order ->
   length s = N -> bipolar s ->
-  hop_evolve W r order s T = Ok (k, rows) ->
-  length rows = T /\
+  let cs := map (fun i => nth (i mod length order) order 0%nat) (seq 0 (T - 1)) in
+  let rows := trajectory W s cs in
+  (exists k, hop_evolve W r order s T = Ok (k, rows)) /\
+  length rows = T /\ Forall (fun c => (c < N)%nat) cs /\
   nonincreasing (map (energy2 W) rows) /\
-  Forall (fun row => length row = N /\ bipolar row) rows /\
-  exists cs, Forall (fun c => (c < N)%nat) cs /\ rows = trajectory W s cs.
+  Forall (fun row => length row = N /\ bipolar row) rows.
 Proof. exact hop_evolve_energy. Qed.
 
-(* END TO END (C01 + C12 + C20): cpl.evolve(initial, T, AsynchronousRule(_rule, ...), r) as modelled by
-   evolve_plain + async_rule1, on an odd ring N = 2r+1 >= 3: for every symmetric zero-diagonal W,
-   every shuffle oracle returning permutations, every admissible AsynchronousRule state (any duplicate-
-   free update order over the cells, randomize_each_cycle or not), every bipolar start and every T:
-   each row is one Hopfield update of one cell away from the previous one and 2E never increases *)
-Theorem C20_evolve_energy : forall r W sh a0 s T a rows, (1 <= r)%nat ->
+(* END TO END (C01 + C12 + C20), TOTALITY: cpl.evolve(initial, T, AsynchronousRule(_rule, ...), r) as modelled by
+   evolve_plain + async_rule1, on an odd ring N = 2r+1 >= 3, returns for every T >= 1, every N x N matrix W, every
+   start of length N, every shuffle oracle returning permutations and every admissible AsynchronousRule state
+   (any duplicate-free update order over the cells, any curr, randomize_each_cycle or not -- so also a second
+   evolve on the same rule object).  Its rows are the trajectory of the Hopfield updates of exactly the cells
+   cs = sched_trace ... (Model/Async.v: cell order[curr] of the current, possibly reshuffled, update order, curr
+   advancing cyclically), and no call of _rule raises: each returns the value the next row holds. *)
+Theorem C20_evolve_total : forall r W sh a0 s T, (1 <= r)%nat -> (1 <= T)%nat ->
+  shape (2 * r + 1) W -> (forall i l, Permutation l (sh i l)) ->
+  ainv1 unit (2 * r + 1) a0 -> length s = (2 * r + 1)%nat ->
+  let cs := sched_trace nat 0%nat sh (T - 1) (a_rand a0) (a_order a0) (a_curr a0) (a_nsh a0) in
+  let rows := trajectory W s cs in
+  (exists a, evolve_plain (async_rule1 (hopfield_rule1 W r) sh) store_id r a0 [s] T = Ok (a, rows)) /\
+  length cs = (T - 1)%nat /\ Forall (fun c => (c < 2 * r + 1)%nat) cs /\ length rows = T /\
+  Forall (fun row => length row = (2 * r + 1)%nat) rows /\
+  forall i, (i < T - 1)%nat ->
+    hopfield_rule W r (ring_nbhd (nth i rows []) (nth i cs 0%nat) r) (nth i cs 0%nat)
+    = Ok (nth (nth i cs 0%nat) (nth (S i) rows []) 0).
+Proof. exact hopfield_async_total. Qed.
+
+(* ... ENERGY: for symmetric zero-diagonal W and a bipolar start, 2E never increases and all rows are bipolar *)
+Theorem C20_evolve_energy : forall r W sh a0 s T, (1 <= r)%nat -> (1 <= T)%nat ->
   shape (2 * r + 1) W -> wsym (2 * r + 1) W -> wdiag (2 * r + 1) W ->
   (forall i l, Permutation l (sh i l)) ->
   ainv1 unit (2 * r + 1) a0 -> length s = (2 * r + 1)%nat -> bipolar s ->
-  evolve_plain (async_rule1 (hopfield_rule1 W r) sh) store_id r a0 [s] T = Ok (a, rows) ->
-  length rows = T /\
+  let cs := sched_trace nat 0%nat sh (T - 1) (a_rand a0) (a_order a0) (a_curr a0) (a_nsh a0) in
+  let rows := trajectory W s cs in
+  (exists a, evolve_plain (async_rule1 (hopfield_rule1 W r) sh) store_id r a0 [s] T = Ok (a, rows)) /\
+  length rows = T /\ Forall (fun c => (c < 2 * r + 1)%nat) cs /\
   nonincreasing (map (energy2 W) rows) /\
-  Forall (fun row => length row = (2 * r + 1)%nat /\ bipolar row) rows /\
-  exists cs, Forall (fun c => (c < 2 * r + 1)%nat) cs /\ rows = trajectory W s cs.
+  Forall (fun row => length row = (2 * r + 1)%nat /\ bipolar row) rows.
 Proof. exact hopfield_async_energy. Qed.
 
-(* ... for the net as HopfieldNet builds it: odd N >= 3, W = train(P), r = N // 2, update order = all
-   cells shuffled once by the constructor (any permutation) *)
-Theorem C20_net_energy : forall N p0 P W sh rand s T a rows,
-  Nat.odd N = true -> (3 <= N)%nat ->
+(* ... for the net as HopfieldNet builds it: odd N >= 3, W = train(P), r = N // 2, update order = all cells
+   shuffled once by the constructor (sh 0 (seq 0 N), any permutation): totality for every start of length N *)
+Theorem C20_net_total : forall N p0 P W sh rand s T,
+  Nat.odd N = true -> (3 <= N)%nat -> (1 <= T)%nat ->
+  Forall (fun p => length p = N) (p0 :: P) -> train (p0 :: P) = Ok W ->
+  (forall i l, Permutation l (sh i l)) -> length s = N ->
+  let cs := sched_trace nat 0%nat sh (T - 1) rand (sh 0%nat (seq 0 N)) 0 1 in
+  let rows := trajectory W s cs in
+  (exists a, evolve_plain (async_rule1 (hopfield_rule1 W (hopfield_r N)) sh) store_id (hopfield_r N)
+               (async_init_cells sh (init_order1 N) rand tt) [s] T = Ok (a, rows)) /\
+  length cs = (T - 1)%nat /\ Forall (fun c => (c < N)%nat) cs /\ length rows = T /\
+  Forall (fun row => length row = N) rows /\
+  forall i, (i < T - 1)%nat ->
+    hopfield_rule W (hopfield_r N) (ring_nbhd (nth i rows []) (nth i cs 0%nat) (hopfield_r N)) (nth i cs 0%nat)
+    = Ok (nth (nth i cs 0%nat) (nth (S i) rows []) 0).
+Proof. exact hopfield_net_total. Qed.
+
+(* ... and energy descent for every bipolar start *)
+Theorem C20_net_energy : forall N p0 P W sh rand s T,
+  Nat.odd N = true -> (3 <= N)%nat -> (1 <= T)%nat ->
   Forall (fun p => length p = N) (p0 :: P) -> train (p0 :: P) = Ok W ->
   (forall i l, Permutation l (sh i l)) ->
   length s = N -> bipolar s ->
-  evolve_plain (async_rule1 (hopfield_rule1 W (hopfield_r N)) sh) store_id (hopfield_r N)
-               (async_init_cells sh (init_order1 N) rand tt) [s] T = Ok (a, rows) ->
-  length rows = T /\
+  let cs := sched_trace nat 0%nat sh (T - 1) rand (sh 0%nat (seq 0 N)) 0 1 in
+  let rows := trajectory W s cs in
+  (exists a, evolve_plain (async_rule1 (hopfield_rule1 W (hopfield_r N)) sh) store_id (hopfield_r N)
+               (async_init_cells sh (init_order1 N) rand tt) [s] T = Ok (a, rows)) /\
+  length rows = T /\ Forall (fun c => (c < N)%nat) cs /\
   nonincreasing (map (energy2 W) rows) /\
-  Forall (fun row => length row = N /\ bipolar row) rows /\
-  exists cs, Forall (fun c => (c < N)%nat) cs /\ rows = trajectory W s cs.
+  Forall (fun row => length row = N /\ bipolar row) rows.
 Proof. exact hopfield_net_energy. Qed.
 
-(* ... and a single stored pattern and its negation are fixed points of that evolution *)
-Theorem C20_net_stored_fixed : forall N p W sh rand T a rows,
-  Nat.odd N = true -> (3 <= N)%nat -> length p = N -> bipolar p -> train [p] = Ok W ->
+(* the schedule in closed form (randomize_each_cycle = False, what HopfieldNet uses): the i-th step (0-based)
+   updates cell order[i mod N], order = the constructor's shuffle of 0..N-1 *)
+Theorem C20_net_schedule : forall N sh T i, (1 <= N)%nat -> (forall i l, Permutation l (sh i l)) -> (i < T - 1)%nat ->
+  nth i (sched_trace nat 0%nat sh (T - 1) false (sh 0%nat (seq 0 N)) 0 1) 0%nat
+  = nth (i mod N) (sh 0%nat (seq 0 N)) 0%nat.
+Proof. exact hopfield_net_schedule. Qed.
+
+(* ... and a single stored pattern and its negation are fixed points of that evolution: every row is p (-p) *)
+Theorem C20_net_stored_fixed : forall N p W sh rand T,
+  Nat.odd N = true -> (3 <= N)%nat -> (1 <= T)%nat -> length p = N -> bipolar p -> train [p] = Ok W ->
   (forall i l, Permutation l (sh i l)) ->
-  (evolve_plain (async_rule1 (hopfield_rule1 W (hopfield_r N)) sh) store_id (hopfield_r N)
-                (async_init_cells sh (init_order1 N) rand tt) [p] T = Ok (a, rows) ->
-   Forall (fun row => row = p) rows) /\
-  (evolve_plain (async_rule1 (hopfield_rule1 W (hopfield_r N)) sh) store_id (hopfield_r N)
-                (async_init_cells sh (init_order1 N) rand tt) [map Z.opp p] T = Ok (a, rows) ->
-   Forall (fun row => row = map Z.opp p) rows).
+  (exists a, evolve_plain (async_rule1 (hopfield_rule1 W (hopfield_r N)) sh) store_id (hopfield_r N)
+               (async_init_cells sh (init_order1 N) rand tt) [p] T = Ok (a, repeat p T)) /\
+  (exists a, evolve_plain (async_rule1 (hopfield_rule1 W (hopfield_r N)) sh) store_id (hopfield_r N)
+               (async_init_cells sh (init_order1 N) rand tt) [map Z.opp p] T = Ok (a, repeat (map Z.opp p) T)).
 Proof. exact hopfield_net_stored_fixed. Qed.
+
+(* train as the three loops with element accesses that raise (the translator's target) is the same function as
+   the pre-checked fold `train` the theorems above are about: same W or same exception, for EVERY input *)
+Theorem C20_train_loop : forall P, train_loop P = train P.
+Proof. exact train_loop_eq. Qed.
 
 (* ---- non-vacuity: N = 5, two patterns, a scripted shuffle; the hypotheses are met, the evolution
    moves, and 2E strictly drops twice (8, 8, 8, 8, 0, 0, -16, -16) ---- *)
@@ -208,6 +273,21 @@ Example C20_nonvacuous_stored :
   = Ok (a, [[-1; 1; -1; 1; -1]; [-1; 1; -1; 1; -1]; [-1; 1; -1; 1; -1]; [-1; 1; -1; 1; -1]]).
 Proof. eexists. eexists. split; vm_compute; reflexivity. Qed.
 
+(* bipolarity of the state is a necessary hypothesis of energy descent, not an artefact: with one stored
+   pattern [1;1;1] and the non-bipolar state [5;1;1], updating cell 0 raises 2E from -22 to -6 *)
+Example C20_bipolar_needed :
+  train [[1; 1; 1]] = Ok [[0; 1; 1]; [1; 0; 1]; [1; 1; 0]] /\
+  energy2 [[0; 1; 1]; [1; 0; 1]; [1; 1; 0]] [5; 1; 1] = -22 /\
+  hop_update [[0; 1; 1]; [1; 0; 1]; [1; 1; 0]] [5; 1; 1] 0 = [1; 1; 1] /\
+  energy2 [[0; 1; 1]; [1; 0; 1]; [1; 1; 0]] [1; 1; 1] = -6.
+Proof. repeat (split; [vm_compute; reflexivity|]). vm_compute; reflexivity. Qed.
+
+(* train_loop raises inside the loop exactly where train's pre-check says so *)
+Example C20_nonvacuous_train_loop :
+  train_loop ex_P = Ok ex_W /\ train_loop [[1; -1]; [1; -1; 1]] = Raise IndexError /\ train_loop [] = Raise IndexError /\
+  train_loop [[1; -1; 1]; [1; -1]] = Ok [[0; -2; 1]; [-2; 0; -1]; [1; -1; 0]].
+Proof. repeat (split; [vm_compute; reflexivity|]). vm_compute; reflexivity. Qed.
+
 Print Assumptions C20_train_hebbian.
 Print Assumptions C20_train_rejects.
 Print Assumptions C20_radius.
@@ -220,8 +300,15 @@ Print Assumptions C20_nonincreasing_meaning.
 Print Assumptions C20_stored_fixed.
 Print Assumptions C20_stored_fixed_seq.
 Print Assumptions C20_hopfield_step.
+Print Assumptions C20_evolve_total_abstract.
 Print Assumptions C20_evolve_energy_abstract.
 Print Assumptions C20_direct_model_energy.
+Print Assumptions C20_evolve_total.
 Print Assumptions C20_evolve_energy.
+Print Assumptions C20_net_total.
 Print Assumptions C20_net_energy.
+Print Assumptions C20_net_schedule.
 Print Assumptions C20_net_stored_fixed.
+Print Assumptions C20_train_loop.
+From CPL Require Import gen.GenFuns_C20 GenProps.GenFunsEquivC20 GenProps.C20Src. (* source tie: gen/GenFuns_C20.v is regenerated from hopfield_net.py on every run *)
+Theorem C20_source_tie : forall (W : list (list Z)) (r : nat) (n : list Z) (c : nat), src_hopfield_rule W (Z.of_nat r) n (Z.of_nat c) = hopfield_rule W r n c. Proof. exact C20_source_translation_agrees. Qed. Print Assumptions C20_source_tie.
